@@ -107,6 +107,9 @@ type HarnessRun struct {
 	AssertIDs     map[string]int // id -> times checked
 	CrossCheck    []*Solver      // optional extra solvers for obligations
 	Disagree      []string
+	Args          []Value // arguments of the entry function (selftest)
+	Result        Value   // result of the entry function on the last path (selftest)
+	Results       []Value // results on every completed path (selftest)
 	PathSamples   [][]InputValue // input vectors of completed paths, replayed natively (expected: no failure)
 	SharedGlobals map[*ssa.Global]*Loc
 	SharedInit    map[*ssa.Package]bool
